@@ -124,6 +124,9 @@ def items : J → List (J × J)
 def same : J → J → Bool
   | num a, num b => a == b
   | str a, str b => a == b
+  | bool a, bool b => a == b
+  | null, null => true
+  | undef, undef => true
   | _, _ => false
 
 partial def toJson : J → String
@@ -204,6 +207,9 @@ def jsonSem : Sem TE J Bool where
   isNone := fun t => t
   keyMarks := fun _ _ => true
   anyMarked := fun _ _ => true
+  keyStr := J.toStr
+  mkObj := J.obj
+  mkTree := fun U _ => U
   reads := fun e f => match e with
     | .expr x => f ∈ GE.TagScope.dataFields x
     | .mix ps => ps.any fun p => match p with | .inl _ => false | .inr x => f ∈ GE.TagScope.dataFields x
@@ -218,6 +224,7 @@ partial def Node.print : Node J → String
   | .virt b ch => s!"V{b}(" ++ ch.print ++ ")"
   | .ifn b k ch => s!"I{b}#{k}(" ++ ch.print ++ ")"
   | .forn b its => s!"F{b}[](" ++ its.print ++ ")"
+  | .tnode b k ch => s!"I{b}#" ++ k.toJson ++ "(" ++ ch.print ++ ")"
   | .fornK b raw its => s!"F{b}[" ++ ",".intercalate ((GE.Rlm.uniq raw).map GE.Codec.jsonStr) ++ "](" ++ its.print ++ ")"
 partial def Nodes.print : Nodes J → String
   | .nil => ""
@@ -236,6 +243,7 @@ partial def Node.hasUnsup : Node J → Bool
   | .virt _ ch => ch.hasUnsup
   | .ifn _ _ ch => ch.hasUnsup
   | .forn _ its => its.hasUnsup
+  | .tnode _ k ch => k.hasUnsup || ch.hasUnsup
   | .fornK _ raw its => raw.any (fun k => (k.splitOn "\x01unsupported").length > 1) || its.hasUnsup
 partial def Nodes.hasUnsup : Nodes J → Bool
   | .nil => false
